@@ -162,7 +162,16 @@ where
         let (refs, trailer) = t!(self.backend.read_xref_table_and_trailer(self.start_offset, &resolver));
         self.refs = refs;
 
-        if let Some(crypt) = trailer.get("Encrypt") {
+        // an /Encrypt entry that refers to a free or undefined object is the null object: no encryption
+        let crypt = match trailer.get("Encrypt") {
+            Some(&Primitive::Reference(r)) => match StorageResolver::new(self).resolve(r) {
+                Err(e) if e.is_missing_object() => None,
+                Ok(Primitive::Null) => None,
+                _ => trailer.get("Encrypt")
+            },
+            other => other
+        };
+        if let Some(crypt) = crypt {
             let key = trailer
                 .get("ID")
                 .ok_or(PdfError::MissingEntry {
